@@ -318,8 +318,12 @@ def plan(tier, seed):
   for nm, _, _ in _ec_checks(w):
     for g in groups:
       slow = 'Private' in nm
-      pairs = True if (thorough or not slow) else (
-          'star' if set(g) & ({rot[seed % 9]} - {5, 19, 18, 4}) else False)
+      if not slow:
+        pairs = True
+      elif thorough:
+        pairs = 'star' if set(g) & {5, 19, 18, 4} else True
+      else:
+        pairs = 'star' if set(g) & ({rot[seed % 9]} - {5, 19, 18, 4}) else False
       T.append(Task('ec-batches', 'ec', {'check': nm, 'cids': g, 'pair_mode': pairs},
                     bound='every curve id 0..19 + 20, 99 x 15 (4) coordinate variants; every batch '
                     'of size 0..2 on one curve + cross-curve pairs, 5 check configurations '
